@@ -372,6 +372,8 @@ def judge_c01(d):
     """violation iff the implementation let something out (egress or a 200) that the gate model refuses,
     or answered a refused request with something else than 407 + challenge"""
     q, impl, model = d["query"], d["impl"], d["model"]
+    if q.startswith("c10 real "):
+        return None  # refusal codes of the real forwarder: C10's subject, no credentials involved
     ir, ie = _c10_parse(impl); mr, me = _c10_parse(model)
     if ir is None or mr is None or len(ir) != len(mr):
         return None
@@ -387,6 +389,11 @@ def judge_c01(d):
 
 def judge_c10(d):
     q, impl, model = d["query"], d["impl"], d["model"]
+    if q.startswith("c10 real "):
+        t = q.split()
+        return ("CONNECT through the real direct forwarder (allow_private_network_connections=%s, ipv6_available=%s) to %s was answered "
+                "[status X-Warning challenge X-Adguard-Vpn-Error] = [%s]; the documented answer for that destination is [%s] "
+                "(310 = non-routable, 311 = loopback, 300 = connection failed)" % (t[2], t[3], " ".join(t[4:]), impl, model))
     ir, ie = _c10_parse(impl); mr, me = _c10_parse(model)
     if ir is None or mr is None or len(ir) != len(mr):
         return "number of responses differs from the number of requests"
@@ -550,6 +557,7 @@ PROPS = {
                      "excluded from the round-trip theorem by an explicit predicate"],
     ),
     "C11": dict(
+        retry_on_failure=True,
         suites=["c11"],
         judge=judge_c11,
         level="proof",
@@ -572,6 +580,7 @@ PROPS = {
                      "(Echo::eq); theorems about delivery are stated per matching waiter"],
     ),
     "C04": dict(
+        retry_on_failure=True,
         suites=["c04"],
         judge=judge_c04,
         level="proof",
@@ -587,13 +596,17 @@ PROPS = {
         assumptions=["QUIC: rules are evaluated after the QUIC handshake completes but before any HTTP/3 codec exists, as the property states"],
     ),
     "C12": dict(
+        retry_on_failure=True,
         suites=["c12"],
         judge=judge_c12,
         level="proof",
         rule="ClientHellos from rustls (varied SNI/ALPN) and synthetic ones (session ids, suite lists, padding and key-share "
              "extensions from 0 to just over 16 KiB, fragmented over two records): extraction on the full record, with suffix, with a "
              "second record, on every prefix (short) / sampled prefixes (long), on mutations of every length field, on odd first "
-             "records; the real read loop + prebuffer replay over loopback TCP written in chosen segments with chosen read sizes",
+             "records; the real read loop + prebuffer replay over loopback TCP written in chosen segments with chosen read sizes"
+             " The read loop is also fed hellos in 24-byte segments (more reads than the prebuffer has kilobytes) and hellos of "
+             "15-16 KiB that fit the prebuffer; only a hello ending in the last KiB of a stream that fills the prebuffer is left out "
+             "(found or absent depending on how the reads fall, which the property allows)",
         explanation="theorems extract_exact, prefix_needs_more, found_is_the_field, loop_segmentation_invariant, "
                     "loop_absent_never_wrong, loop_conserves, replay_transparent/complete about TT/Model/ClientHello.lean",
         trusted=["tls-parser 0.12 record/handshake/ClientHello walk as transcribed; exactness claimed for records whose first handshake "
@@ -684,6 +697,7 @@ PROPS = {
         assumptions=["a direction whose peer has already finished is closed after T (not 2T) of silence: within the stated bound"],
     ),
     "C08": dict(
+        retry_on_failure=True,
         suites=["c08"],
         judge=judge_c08,
         level="proof",
@@ -691,7 +705,10 @@ PROPS = {
              "payloads {empty, 1, 40, 300 bytes} under: whole, 1-cuts (every position in thorough), cuts around the end of the head, "
              "byte-at-a-time, random 2-/3-cuts; near-miss invalid heads (bad version, 33 headers, endless head in 100-byte reads, ...) "
              "and truncated heads; every session runs the real Http1Codec over an in-memory transport, answers 200 and relays download "
-             "bytes; a watchdog detects sessions that stop making progress (busy loop)",
+             "bytes; a watchdog detects sessions that stop making progress (busy loop)"
+             " Plus 32 CONNECT sessions whose payload (0, 10, 4096, 70000 bytes), end of stream and (in half of them) the drop of the "
+             "sink reach the codec while it is blocked writing to a client that reads 16 or 64 bytes at a time over a 64- or 1000-byte "
+             "transport and closes last: the client must get the complete payload and the end of stream, the session must end gracefully",
         explanation="theorems head_segmentation_invariant, payload_exact, incomplete_head_waits, no_spin, head_bounded, oversize_rejected, "
                     "response_wellformed about TT/Model/H1.lean under the hypothesis PrefixConsistent(parser)",
         trusted=["httparse satisfies PrefixConsistent and agrees with 'head ends at the first CRLF CRLF' on the generated valid heads "
@@ -709,7 +726,9 @@ PROPS = {
              "record/handshake/ClientHello prefixes; SOCKS5 selection/reply prefixes), presented to: the UDP stream decoder (two "
              "segmentations), the ICMP request decoder, skip_ipv4/ipv6_header, ICMP v4/v6 deserialize + responded_echo_request, "
              "extract_client_random, the SOCKS5 dialogue; random fragment soups as rules and credentials files through the real loader; "
-             "all under catch_unwind, all answers also compared with the Lean models",
+             "all under catch_unwind, all answers also compared with the Lean models"
+             " Plus every declared UDP record length 0..90 with enough bytes behind it, and the connection filter with every rule "
+             "prefix length 0..4 x mask length 0..6 against client randoms of 0, 1, 2, 3 and 32 bytes",
         explanation="theorems udp_stream_no_panic, udp_step_safe, icmp_request_decoder_safe, ip_header_skipping_safe, icmp_packets_safe, "
                     "client_hello_prebuffer_bounded, h1_head_bounded_and_progress, socks_udp_datagram_safe, socks_truncated_reply_is_error, "
                     "rules_malformed_safe (TT/Props/C09.lean, built on the C04/C06/C08/C11/C12/C15 theorems)",
@@ -734,7 +753,11 @@ PROPS = {
         suites=["c10"],
         judge=judge_c10,
         level="proof",
-        rule='sessions over the real Http1Codec (1 request) and Http2Codec (1-3, thorough 1-5 concurrent streams) on in-memory transports through the real Core::on_tunnel_request / Tunnel / HttpDownstream with a scripted forwarder injected at Core::make_forwarder: authenticator {none, registry of 2 clients, scripted accepting one token and one SNI}, SNI credentials {none, accepted, rejected}, methods {CONNECT, GET, POST, OPTIONS, HEAD}, 19 authorities (reserved names, look-alikes differing by case / suffix / port, literals v4/v6 with and without port, names with and without port, bad port), 13 Proxy-Authorization forms (absent, two valid, wrong password / user, Bearer, lower-case scheme, no space, bad base64, non-UTF-8, empty, empty token, trailing space), 13 connect outcomes (ok, refused, unreachable, timed out, 310, 311, resolver failure, EMFILE, other, upstream auth failure, completion at D-1 / D / D+1 ms under the paused clock), UDP/ICMP multiplexer failures; per request status, X-Warning code, challenge, X-Adguard-Vpn-Error and the multiset of forwarder calls are compared with the Lean session model',
+        rule='sessions over the real Http1Codec (1 request) and Http2Codec (1-3, thorough 1-5 concurrent streams) on in-memory transports through the real Core::on_tunnel_request / Tunnel / HttpDownstream with a scripted forwarder injected at Core::make_forwarder: authenticator {none, registry of 2 clients, scripted accepting one token and one SNI}, SNI credentials {none, accepted, rejected}, methods {CONNECT, GET, POST, OPTIONS, HEAD}, 19 authorities (reserved names, look-alikes differing by case / suffix / port, literals v4/v6 with and without port, names with and without port, bad port), 13 Proxy-Authorization forms (absent, two valid, wrong password / user, Bearer, lower-case scheme, no space, bad base64, non-UTF-8, empty, empty token, trailing space), 13 connect outcomes (ok, refused, unreachable, timed out, 310, 311, resolver failure, EMFILE, other, upstream auth failure, completion at D-1 / D / D+1 ms under the paused clock), UDP/ICMP multiplexer failures; per request status, X-Warning code, challenge, X-Adguard-Vpn-Error and the multiset of forwarder calls are compared with the Lean session model'
+             " Plus 112 CONNECTs through the real direct forwarder (outbound connects stubbed): 19 address literals (loopback other than "
+             "127.0.0.1, private, link-local, CGNAT edges, ULA, documentation, IPv4-mapped, multicast, global) and 9 scripted resolver "
+             "answers x both policies x IPv6 on/off, refusal code and X-Adguard-Vpn-Error compared with the C03 decision carried "
+             "through the generated tables",
         explanation="theorems exactly_one_final, codes_documented, outcome_codes, connect_result, reserved_never_resolved, "
                     "lookalikes_are_hosts, connect_without_port_refused, health_and_mux_accepted about TT/Model/Dispatch.lean with "
                     "statusOf / warnOf / reserved names regenerated from http_downstream.rs on every run",
@@ -744,6 +767,7 @@ PROPS = {
                      "stream is dropped: the model follows the code; the property only fixes the accepted case"],
     ),
     "C07": dict(
+        retry_on_failure=True,
         suites=["c07"],
         judge=judge_c07,
         level="proof",
@@ -770,6 +794,7 @@ PROPS = {
         assumptions=["a stale reply could reach a new socket only if the kernel reused the ephemeral port within the history; ignored"],
     ),
     "C16": dict(
+        retry_on_failure=True,
         suites=["c16"],
         judge=judge_c16,
         level="proof",
@@ -800,6 +825,8 @@ PROPS = {
                      "zero-when-gone theorem is stated after the timeouts"],
     ),
     "C17": dict(
+        retry_on_failure=True,
+        known_oracle_kinds=["unframed-request-body"],
         suites=["c17"],
         judge=judge_c17,
         level="proof",
@@ -828,6 +855,7 @@ PROPS = {
                      "client has its complete response by then and the model follows the code (the pipe ends with an error)"],
     ),
     "C19": dict(
+        retry_on_failure=True,
         suites=["c19"],
         judge=judge_c19,
         level="proof",
@@ -848,6 +876,7 @@ PROPS = {
         assumptions=[],
     ),
     "C18": dict(
+        retry_on_failure=True,
         suites=["c18"],
         judge=judge_c18,
         level="proof",
